@@ -56,3 +56,29 @@ def _c20_weights_shape():
 
 
 WITNESSES["c20_weights_shape"] = _c20_weights_shape
+
+
+def _c16_antialias_shrinks_hull():
+    import warnings
+
+    import verde
+    import xarray as xr
+
+    east, north = np.linspace(-3.0, 5.0, 8), np.linspace(10.0, 16.0, 6)
+    E, N = np.meshgrid(east, north)
+    grid = xr.DataArray(2 * E - 0.5 * N, coords={"northing": north, "easting": east}, dims=("northing", "easting"), name="topo")
+    proj = lambda e, n: (2.0 * np.asarray(e) + 10.0, 3.0 * np.asarray(n) - 1.0)  # noqa: E731
+    pe, pn = proj(E, N)
+    reg = (pe.min() - 3, pe.max() + 3, pn.min() - 3, pn.max() + 3)
+    with warnings.catch_warnings():
+        warnings.simplefilter("ignore")
+        out = verde.project_grid(grid, proj, method="linear", antialias=True, region=reg)
+    oe, on = np.meshgrid(out.easting.values, out.northing.values)
+    inside = (oe > pe.min() + 1e-6) & (oe < pe.max() - 1e-6) & (on > pn.min() + 1e-6) & (on < pn.max() - 1e-6)
+    nbad = int(np.isnan(out.values[inside]).sum())
+    if nbad:
+        return True, "%d of %d nodes strictly inside the hull of the projected data are NaN" % (nbad, int(inside.sum()))
+    return False, "all nodes inside the hull are finite now"
+
+
+WITNESSES["c16_antialias_shrinks_hull"] = _c16_antialias_shrinks_hull
